@@ -42,9 +42,20 @@ func nonEmpty(r *sys.Result) string {
 	return s
 }
 
-func scenario(seed uint64, idx int, tier string, root string) []runRes {
+// scenarioX runs one scenario and returns, with its results, the encoding of the world and request it used: failures
+// are reported as "SCEN seed idx tier <encoding>", a line that keeps its meaning when the generators change.
+func scenarioX(s common.Scen, root string) ([]runRes, string) {
+	var enc string
+	rs := scenario(s.Seed, s.Idx, s.Tier, root, s.Fixed, &enc)
+	return rs, enc
+}
+
+func scenario(seed uint64, idx int, tier string, root string, fixed string, enc *string) []runRes {
 	rng := common.NewRng(seed*104729 + uint64(idx))
-	sc := sys.GenScenario(rng)
+	sc := sys.GenScenarioOr(rng, fixed)
+	if enc != nil {
+		*enc = sc.Encode()
+	}
 	w := sc.W
 	base := fmt.Sprintf("LIN %d %s %s %d %d", sqe.MaxRecursionDeepness, w.Encode(), sc.Output, sc.Start, sc.Stop)
 	dir := filepath.Join(root, fmt.Sprintf("sc%d", idx))
@@ -147,6 +158,33 @@ func scenario(seed uint64, idx int, tier string, root string) []runRes {
 		out = append(out, rr)
 		os.RemoveAll(d)
 	}
+	// ---- caches left by interrupted requests ("a cancelled request", "a half-written file is never taken for a complete
+	// one"): the request is aborted while one of its jobs is half-way through its segment; whatever that leaves behind,
+	// a later request must complete with the outputs of the empty cache, and no file may differ from the clean run's
+	for k := 0; k < 2 && len(r0.Jobs) > 0; k++ {
+		d := filepath.Join(dir, fmt.Sprintf("intr%d", k))
+		job := rng.Intn(len(r0.Jobs))
+		ab := w.Run(d, sc.Req(true, rng.Range(1, 2)), sys.Opts{Sched: rng.Fork(), Faults: []sys.Fault{{Job: job, Where: "abort"}}, Timeout: 12 * time.Second})
+		time.Sleep(30 * time.Millisecond)
+		left := sys.CacheFiles(d)
+		rr := runRes{line: fmt.Sprintf("%s | after-aborted-request job=%d", base, job), nt: len(left) > 0, counts: []string{"aborted:" + ab.ErrClass(), fmt.Sprintf("aborted-left-files:%d", min(len(left), 20))}}
+		for _, f := range left {
+			if want, ok := cleanContent[f]; ok {
+				if got := sys.DecodeFile(d, f); got != want {
+					rr.fails = append(rr.fails, [2]string{"C07/half-written-file-taken-for-complete", fmt.Sprintf("request aborted in job %d left %s = %.200s || clean run: %.200s", job, f, got, want)})
+				}
+			}
+		}
+		r := w.Run(d, sc.Req(true, rng.Range(1, 3)), sys.Opts{Sched: rng.Fork(), Timeout: 12 * time.Second})
+		rr.ans = nonEmpty(r)
+		if strings.Contains(rr.ans, "ERR:timeout") {
+			rr.fails = append(rr.fails, [2]string{"C07/request-never-completes", fmt.Sprintf("after a request aborted in job %d (files %v) the request does not finish", job, left)})
+		} else if rr.ans != ref {
+			rr.fails = append(rr.fails, [2]string{"C07/cache-subset-changes-output", fmt.Sprintf("after a request aborted in job %d, files present: %v || empty cache: %.300s || got: %.300s", job, left, ref, rr.ans)})
+		}
+		out = append(out, rr)
+		os.RemoveAll(d)
+	}
 	return out
 }
 
@@ -169,9 +207,8 @@ func main() {
 	}
 	if lines := o.ReplayLines(); lines != nil {
 		for _, l := range lines {
-			f := strings.Fields(l)
-			if len(f) >= 4 && f[0] == "SCEN" {
-				emit(scenario(common.Atou(f[1]), common.Atoi(f[2]), f[3], root), l)
+			if psc, ok := common.ParseScen("SCEN", l); ok {
+				emit(scenario(psc.Seed, psc.Idx, psc.Tier, root, psc.Fixed, nil), l)
 			}
 		}
 		return
@@ -184,6 +221,7 @@ func main() {
 	scens := o.Scens("SCEN", n)
 	n = len(scens)
 	results := make([][]runRes, n)
+	encs := make([]string, n)
 	var wg sync.WaitGroup
 	sem := make(chan struct{}, 12)
 	for i := 0; i < n; i++ {
@@ -192,11 +230,11 @@ func main() {
 		go func(i int) {
 			defer wg.Done()
 			defer func() { <-sem }()
-			results[i] = scenario(scens[i].Seed, scens[i].Idx, scens[i].Tier, filepath.Join(root, fmt.Sprintf("k%d", i)))
+			results[i], encs[i] = scenarioX(scens[i], filepath.Join(root, fmt.Sprintf("k%d", i)))
 		}(i)
 	}
 	wg.Wait()
 	for i, rs := range results {
-		emit(rs, scens[i].String())
+		emit(rs, common.Scen{Seed: scens[i].Seed, Idx: scens[i].Idx, Tier: scens[i].Tier, Fixed: encs[i]}.String())
 	}
 }
